@@ -67,8 +67,12 @@ def check_product_suffix_discipline(ctx, rule: str) -> int:
         if side is None:
             continue
         other = 'elec' if side == 'heat' else 'heat'
-        names = sorted({x.id for x in ast.walk(st.value) if isinstance(x, ast.Name) and x.id.endswith('_' + other)})
-        if not any(x.id.endswith('_' + side) for x in ast.walk(st.value) if isinstance(x, ast.Name)) and not names:
+        # read through temporaries that carry no product suffix themselves (a value handed over from a written-out helper)
+        from gxstat.inline import inline_sequential
+        suffixed = tuple({x.id for x in ast.walk(f.node) if isinstance(x, ast.Name) and x.id.endswith(('_heat', '_elec'))} | {'LCOE', 'LCOH', 'LCOC'})
+        val = inline_sequential(st.value, st, keep=suffixed)
+        names = sorted({x.id for x in ast.walk(val) if isinstance(x, ast.Name) and x.id.endswith('_' + other)})
+        if not any(x.id.endswith('_' + side) for x in ast.walk(val) if isinstance(x, ast.Name)) and not names:
             continue
         n += 1
         ctx.check(not names, rule, f'CalculateLCOELCOHLCOC/{t}@{_arm_of2(f, st)}/own-product-terms-only', f'{f.module.rel}:{st.lineno}',
